@@ -8,7 +8,7 @@ EXTENDS Naturals, Sequences, FiniteSets, TLC, Json, SequencesExt, IOUtils
 Scripts == {"all", "one", "s1", "s2", "s3", "s4", "s5", "s6", "s7", "s8", "hdrend-1", "hdrend", "hdrend+1", "rand"}
 PidLens == {1, 2, 3, 100, 125, 126, 127, 128, 300, 16380, 16381, 16382, 16500, 99000}
 Hdr == [kind : {"hdr"}, pid : PidLens, pay : {0, 1, 5}, script : Scripts, mal : {"none"}]
-HdrMal == [kind : {"hdr"}, pid : {3}, pay : {0, 5}, script : {"all", "one", "s2", "rand"},
+HdrMal == [kind : {"hdr"}, pid : {3}, pay : {0, 5}, script : {"all", "one", "s2", "rand", "alleof", "oneeof", "s2eof", "randeof"},
            mal : {"empty", "zero", "overlimit", "hugelen", "trunc-prefix", "trunc-body", "overlong-varint", "garbage-body", "empty-pid", "badutf8-pid", "wrong-field", "toolong-pid"}]
 Sizes == {"1", "2", "255", "256", "max-1", "max"}
 SizeSeqs == {<<a>> : a \in Sizes} \cup {<<a, b>> : a \in {"1", "256", "max"}, b \in Sizes} \cup {<<"2", "max", "1">>, <<"max", "max", "max">>, <<"1", "1", "1">>}
